@@ -7,6 +7,14 @@ use levenberg_marquardt::LevenbergMarquardt;
 use nalgebra::DVector;
 use serde_json::{json, Value};
 
+/// None for an empty configuration: the library's default solver is then used
+pub fn solver_opt<T: HScalar>(v: &Value) -> Option<LevenbergMarquardt<T>> {
+    match v.as_object() {
+        Some(o) if !o.is_empty() => Some(solver_from::<T>(v)),
+        _ => None,
+    }
+}
+
 pub fn solver_from<T: HScalar>(v: &Value) -> LevenbergMarquardt<T> {
     let mut s = LevenbergMarquardt::<T>::new();
     if let Some(x) = v.get("ftol") {
@@ -108,7 +116,7 @@ pub fn run_ops<T: HScalar, P: Prob<T>>(mut p: P, ops: &[Value], out: &mut Vec<Va
                 return run_ops::<T, P::Seq>(q, &ops[i..], out, ctx);
             }
             "fit" => {
-                let solver = solver_from::<T>(&op[1]);
+                let solver = solver_opt::<T>(&op[1]);
                 let log_before = p.p_model().shared.lock().unwrap().log.len();
                 let f = p.p_fit(solver);
                 let mut v = fit_json(&f);
@@ -117,7 +125,7 @@ pub fn run_ops<T: HScalar, P: Prob<T>>(mut p: P, ops: &[Value], out: &mut Vec<Va
                 return run_ops::<T, P::Seq>(f.problem, &ops[i..], out, ctx);
             }
             "fit_stats" => {
-                let solver = solver_from::<T>(&op[1]);
+                let solver = solver_opt::<T>(&op[1]);
                 let probs: Vec<T> = op
                     .get(2)
                     .and_then(|a| a.as_array())
